@@ -85,13 +85,18 @@ Fixpoint check_vf (tol : Q) (m : pomdp) (prev : vlist) (rest : list vlist) : boo
 Definition vbest (l : vlist) (b : vec) : Q := best (valsof l) b.
 
 (* executing the plan rooted at entry [i] of horizon list [cur] (with older horizons in [older],
-   newest first) from unnormalised belief tau: expected discounted return *)
-Fixpoint exec_return (m : pomdp) (older : list vlist) (cur : vlist) (i : nat) (tau : vec) : Q :=
+   newest first) from unnormalised belief tau: expected discounted return of the steps taken, plus
+   [term] applied to the horizon-0 entry finally reached (and the belief reached) *)
+Fixpoint exec_gen (term : ventry -> vec -> Q) (m : pomdp) (older : list vlist) (cur : vlist) (i : nat) (tau : vec) : Q :=
   match older with
-  | [] => 0
+  | [] => term (nth i cur dummy_entry) tau
   | prev :: older' =>
     let e := nth i cur dummy_entry in
     rew_at m tau (act e) +
-    gam (pm m) * qsum (map (fun o => exec_return m older' prev (nth o (obs e) O) (tau_step m tau (act e) o))
+    gam (pm m) * qsum (map (fun o => exec_gen term m older' prev (nth o (obs e) O) (tau_step m tau (act e) o))
                            (seq 0 (nO m)))
   end.
+(* return including what the initial (horizon-0) entry promises at the end *)
+Definition exec_return := exec_gen (fun e tau => dot (vals e) tau).
+(* return of the h steps alone *)
+Definition exec_steps := exec_gen (fun _ _ => 0).
